@@ -103,7 +103,7 @@ PROPS["C02"] = dict(
              "by the canonical observation. On every transition the full observation (all entities, attributes, links, descriptors, data, "
              "creation times, lookup agreement) taken in the writing session is compared with the one after close+reopen ReadOnly, ReadWrite and, "
              "for every new state, with the one a separate process (fork+exec) makes. States carry a fresh/same-session flag so histories with and "
-             "without intermediate reopen are both covered.",
+             "without intermediate reopen are both covered. The other process runs in another time zone, locale environment and working directory than the writer; every new state is additionally reopened ReadOnly and ReadWrite through a symbolic link, a hard link and a path with ./ and ../ components, and once more under the original path afterwards.",
         note="No reference model is needed: the oracle is differential. updated_at is not part of the statement and is excluded. Bounded by depth and "
              "by the name pools of the alphabet (DESIGN appendix A)."),
     evidence=dict(
@@ -130,7 +130,7 @@ PROPS["C03"] = dict(
              "step count, enumeration, index/name/id lookups, has-queries by name/id/handle and absence of absent names are compared with "
              "the ordered-list model (creation order; duplicates rejected). Second part (props/C04x.cpp, family has): every has*(const Entity&) "
              "overload is asked about a handle that is NOT a member but carries the name of one (entity of the other block, deeper level of the same "
-             "tree, feature of another tag) and about a real member, in the creating session and after REOPEN: the answer must be false / true and the file unchanged.",
+             "tree, feature of another tag) and about a real member, in the creating session and after REOPEN: the answer must be false / true and the file unchanged. Every question is asked twice: through a freshly fetched parent and through a witness parent handle that was obtained, and asked the same questions, before the steps of the trace (re-obtained after REOPEN).",
         note="Whether a legal-looking name is accepted is not asserted (only that what exists is consistent and a rejected create changes "
              "nothing). Entity sources are addressed by id only (no by-name API)."),
     evidence=dict(
@@ -154,7 +154,7 @@ PROPS["C08"] = dict(
              "plus two rich seeds and, in thorough, their successors). In each state each of ~150 catalogue calls (duplicate / empty / slash names, empty "
              "types, unknown or foreign link targets, mismatching shapes and element types, unsorted ticks, non-SI units, non-positive intervals, "
              "unsupported element types, out-of-range indices and offsets) is attempted on the first entity of the addressed kind; whenever the call throws, "
-             "the complete observation through fresh handles must equal the one taken before the call, and again after close+reopen.",
+             "the complete observation through fresh handles must equal the one taken before the call, and again after close+reopen. Stale-link-target scenarios (16 link operations x 2 seeds): the target is linked and unlinked through the kept holder handle, deleted through another handle, then linked again by id and by the stale handle - if refused, nothing may change (same session and after reopen).",
         note="A call that unexpectedly succeeds is not a C08 matter and is only counted. The catalogue is hand-written (DESIGN 3.11). Empty HDF5 container "
              "groups left behind are not observable through the API and are ignored."),
     evidence=dict(
@@ -179,7 +179,7 @@ PROPS["C09"] = dict(
              "changes the observation (incl. updated_at) when run on a ReadWrite copy of the same state must throw on the ReadOnly file; afterwards the file's "
              "bytes are identical. ReadWrite reopen preserves the observation, a missing path is created empty; Overwrite yields the observation of an empty file, "
              "reopenable in both modes. 13 header defects (missing/wrong format, version, id; plain HDF5; non-HDF5; empty; truncated) x {ReadOnly, ReadWrite} x both "
-             "compression defaults x 2 base files must be refused, and ReadOnly must not change their bytes or create a missing path.",
+             "compression defaults x 2 base files must be refused, and ReadOnly must not change their bytes or create a missing path. ReadOnly+Force: a missing path and a dangling symbolic link stay refused and nothing is created; on every defect file it changes no byte and creations in it fail. 11 near-miss values of the format hint ('nix' + more, more + 'nix', beginnings, blank-padded, other case) must be refused.",
         note="'Mutating in state S' is defined differentially by the library's own ReadWrite behaviour, so no catalogue classification is hand-written. "
              "flush() and close() are not mutators. Quick runs the second compression default on a quarter of the states."),
     evidence=dict(
@@ -209,7 +209,7 @@ PROPS["C04"] = dict(
              "handles of the victim (and of all nodes of a deleted source/section subtree) must report invalid or throw. Second part (props/C04x.cpp, "
              "family delete): every delete*(const Entity&) overload is handed a handle that does not belong to the container it is called on but "
              "carries the name of a member (other block, deeper level of the same tree, other tag): it must refuse and leave the whole observation as it "
-             "was; handed a real member it must delete it; both in the creating session and after REOPEN, and the result must survive a reopen.",
+             "was; handed a real member it must delete it; both in the creating session and after REOPEN, and the result must survive a reopen. Owner handles obtained before the deletion and already asked about the victim's id are asked again after it; in the 0-/1-link graphs and the all-links graph an entity is then re-created under the victim's name: the old id must resolve to nothing (fresh owner, kept owner, kept owner unused in between), old handles stay invalid, deletion by the old id removes nothing. Link menu incl. an alias array with a further descriptor.",
         note="'Does not expose' accepts none or an exception from a holder whose target is gone. Handles to entities that merely lived inside the victim "
              "(arrays of a deleted block, properties of a deleted section) are not constrained by the statement."),
     evidence=dict(
@@ -233,7 +233,7 @@ PROPS["C14"] = dict(
              "length 0/1/2/3/64 with extremes, NaN payloads, +-inf, -0.0, empty/300-char/UTF-8 strings; wrong-type and mixed vectors; deleteValues; values(none); "
              "unit set/de-blanked/other/empty/none; uncertainty; definition; REOPEN) is replayed on a fresh file; after the last step values (type and bit pattern), "
              "valueCount, dataType, unit, uncertainty and definition are compared with the model through the handle kept since creation, a fresh handle and after "
-             "close+reopen. Rejected operations must throw and leave a bitwise identical observation.",
+             "close+reopen. Rejected operations must throw and leave a bitwise identical observation. A second length-3 vector per type differs from the first in one element only (for Double: the sign of a zero), so equal-looking re-assignments are in every sequence.",
         note="A property created from a DataType has an unspecified value list until the first assignment (the library writes 8 defaults). unit('') may either throw or "
              "remove the unit (the repository's suite pins the latter)."),
     evidence=dict(
@@ -259,7 +259,7 @@ PROPS["C20"] = dict(
              "brute-force BFS (set equality, each entity once; exact breadth-first order for single-node starts). After creating/deleting nodes the queries are repeated through "
              "handles obtained before the change and fresh ones. Back references: every assignment of <=k metadata/source links from 11 holders, all referring* variants and "
              "parentSource vs the inverse link relation, before and after deleting each node. inheritedProperties for all subset pairs of {p,q,r} with shadowing, link-of-link "
-             "and creation orders.",
+             "and creation orders. parentSource is also asked through the Source handles that arrays, tags and multi-tags hand out (sources() / getSource(id)).",
         note="The depth-limit origin per entry point is not part of the statement; it is fixed as the repository's tests pin it and probed on 1-3 node chains (case 0/1). "
              "Order of File::/Block:: searches and of referring* lists is not asserted. findRelated is excluded."),
     evidence=dict(
@@ -330,7 +330,7 @@ PROPS["C15"] = dict(
              "seeds (empty frame, 2 written rows) every sequence up to depth 3/2 (quick) or 4/3 (thorough) over rows(n), writeRow, writeCell, writeCells by name/index, writeColumn "
              "with offset/count inside, touching and past the end, and REOPEN is replayed on a fresh file. After the last step every cell is read through readRow, readCell by index "
              "and name, readCells, and readColumn in 7 variants, through a handle kept since creation and a fresh one, and compared with the grid model (doubles bitwise, sentinel-"
-             "pre-filled buffers); schema getters are compared too. Past-the-end column writes must throw and change nothing.",
+             "pre-filled buffers); schema getters are compared too. Past-the-end column writes must throw and change nothing. A further 4-column schema has names that prefix one another in both orders (time_ms/time, lab/label) with four cell types and units containing blanks, 'mu' and a micro sign.",
         note="Values of a foreign type and rows with too few/many values are outside the statement and not generated. Bool columns go through row/cell access only "
              "(std::vector<bool> has no data())."),
     evidence=dict(
@@ -356,7 +356,7 @@ PROPS["C12"] = dict(
              "from all ids that existed before the step. (b) Schedules: 2-3 real processes (fork+exec, fresh generator each) - and two threads of one process - run every pair of creation "
              "histories (length <= 2 quick / 3 thorough over block, section, array, property, feature, ...) on the same file in orders A-B, A-B-A, A-B-C or on different files, for every "
              "assignment of start times from {T,T,T+1}; time(), gettimeofday() and clock_gettime() of the helper return the assigned value, so 'same second' (and same nanosecond) is forced. "
-             "All ids of a schedule must be pairwise distinct and well-formed.",
+             "All ids of a schedule must be pairwise distinct and well-formed. (b'') Participants that open an existing file with no free file descriptor left when their first id is drawn (RLIMIT_NOFILE 0; a refused creation is accepted). (c) The ids of a rich file across forced ReadOnly / ReadWrite opens under 12 stored format versions, in the forced and in the following session.",
         note="Real pids are left alone. Collisions of genuinely random 122-bit ids are outside any bounded check; what is decided is that ids do not become equal because of the schedule or history."),
     evidence=dict(
         keys=dict(states=("distinct", "states"), transitions=("count", "transitions"), traces_validated_against_impl=("sum", [("count", "traces"), ("count", "schedules")]),
@@ -406,7 +406,7 @@ PROPS["C16"] = dict(
              "calls (wrong ranks, zero counts, offsets at/past the extent, 2^64-1, indices past the end, slices with 0..rank+1 entries, NaN/inf positions, default-constructed, "
              "deleted-entity and closed-file handles, odd unit strings, Variant/NDSize/NDArray edge calls, validation) runs alone on a ReadWrite and on a ReadOnly copy, and in ordered "
              "pairs (quick: a systematic 1/16 sub-grid plus all stateful-first pairs /4; thorough: all pairs). Every call must return or throw a C++ exception: any ASan/UBSan report, "
-             "shim contract breach (HDF5 touching bytes outside a buffer nix handed to it), libstdc++/boost assertion, signal or std::terminate is a violation.",
+             "shim contract breach (HDF5 touching bytes outside a buffer nix handed to it), libstdc++/boost assertion, signal or std::terminate is a violation. 42 legal two-handle programs: an entity is read through handle h1, grown or shrunk through a second handle (or through the array behind an alias dimension), then read through h1 at old and new indices (range ticks, alias ticks, set labels, array extent, data-frame rows, property values, multi-tag positions).",
         note="No uninitialised-read detection (MSan would need an instrumented libhdf5/boost). The other checks also run crash-sandboxed; their ASan runs are part of the thorough tier of C16."),
     evidence=dict(
         keys=dict(states=("distinct", "outcomes"), transitions=("count", "calls"), traces_validated_against_impl=("count", "programs"),
@@ -429,7 +429,7 @@ PROPS["C13"] = dict(
              "unit/label/setData/dataExtent/appendData, deleteDimensions, REOPEN) is replayed on a fresh file. Steps alternate between handles kept alive since creation and "
              "fresh ones; kept handles are read after every step; after the last step kept handles, getDimension(i), dimensions(), a fresh array handle and a ReadOnly reopen are "
              "compared with the model (count, kinds, every attribute, none below 1 and above n). In every state ticks are sorted and intervals positive; illegal calls either throw "
-             "and change nothing or store a legal state; alias dimensions mirror the array in both directions and their preconditions are enforced.",
+             "and change nothing or store a legal state; alias dimensions mirror the array in both directions and their preconditions are enforced. A data frame of another block that carries the name of a local frame is offered as dimension: refused without trace, or read back as the frame that was given.",
         note="Unsorted data written through the ARRAY of an alias is not asserted under the sortedness clause (mirroring wins); unsorted ticks written through the alias dimension are."),
     evidence=dict(
         keys=dict(states=("distinct", "states"), transitions=("count", "transitions"), traces_validated_against_impl=("count", "traces"),
@@ -453,7 +453,7 @@ PROPS["C01"] = dict(
              "and typed (vector, T[N], multi_array, scalar) overloads and between a kept and a fresh handle. After the last step every sub-hyperslab (all while axes <= 3) is read into "
              "sentinel-pre-filled buffers through getData, getDataDirect and typed reads and compared bitwise with the model; calibrated and cross-type reads are compared where the "
              "expected value is exactly representable. A large-array family (3000 elements, three compressions, sparse writes around chunk boundaries, reused dirty buffers) checks that "
-             "never-written regions read as zero.",
+             "never-written regions read as zero. A large-region family (arrays of 3000 and 40x60 elements of Double / Int32 / Int16 holding their linear index; regions of more than 1024 elements starting at and behind the first row, full and partial rows) is read raw and calibrated as Double, Float, Int64, Int32, Int16, UInt16, before and after REOPEN.",
         note="Out-of-range cross-type conversion is don't-care; Bool/String read as numeric may throw. Strings with embedded NUL are not generated."),
     evidence=dict(
         keys=dict(states=("distinct", "states"), transitions=("count", "transitions"), traces_validated_against_impl=("count", "traces"),
